@@ -133,17 +133,90 @@ theorem apply_plainJH {c : CS} {P defs} {Hs : List (Nat × Nat × Int × Nat × 
       exact .refl _
     | _ => simp [isHeu] at hn
 
-theorem run_JHX {c : CS} {P defs} {Hs : List (Nat × Nat × Int × Nat × List Int)} {t : T} (hj : J c P defs) (hh : HRel c defs Hs c.heur) (hxi : XI c t)
+/-! ### the names: every recorded name of an atom is among the pending symbols -/
+def SymInv (c : CS) : Prop := ∀ p ∈ c.symTab, p ∈ c.output
+
+theorem rest_symTab {c c' : CS} (h : rest c' = rest c) : c'.symTab = c.symTab := congrArg (·.2.2.2.2.2.2.1) h
+
+theorem auxAtom_symTab (c : CS) (cond : List Int) : (c.auxAtom cond).1.symTab = c.symTab := by
+  unfold CS.auxAtom CS.emit
+  simp only
+  exact (rest_symTab (rest_mapLits { c with next := c.next + 1, aux := c.aux ++ [c.next] } cond [])).trans rfl
+
+theorem makeAtom_symTab (c : CS) (cond : List Int) (named : Bool) : (c.makeAtom cond named).1.symTab = c.symTab := by
+  unfold CS.makeAtom
+  split
+  · simp only
+    split
+    · exact (auxAtom_symTab _ cond).trans (rest_symTab (rest_mapAtom c _))
+    · show (c.mapAtom (cond.headD 0).natAbs).1.symTab = _
+      exact rest_symTab (rest_mapAtom c _)
+  · exact auxAtom_symTab c cond
+
+theorem SymInv.of {c c' : CS} (h : SymInv c) (h1 : c'.symTab = c.symTab) (h2 : c'.output = c.output) : SymInv c' := by
+  intro p hp; rw [h2]; exact h p (h1 ▸ hp)
+
+theorem SymInv.addOutput {c : CS} (h : SymInv c) (atom : Nat) (name : List Nat) (hash : Bool) : SymInv (c.addOutput atom name hash) := by
+  intro p hp
+  simp only [CS.addOutput] at hp ⊢
+  split at hp
+  · simp only [List.mem_append, List.mem_singleton] at hp ⊢
+    rcases hp with hp | hp
+    · exact Or.inl (h p hp)
+    · exact Or.inr hp
+  · exact List.mem_append_left _ (h p hp)
+
+theorem pass_symTab (c : CS) (x : Call) : (pass c x).symTab = c.symTab ∧ (pass c x).output = c.output := by
+  unfold pass; split <;> exact ⟨rfl, rfl⟩
+
+theorem SymInv.step {c : CS} (h : SymInv c) (hf : c.fail = false) (x : Call) (hx : PlainOk x) : SymInv (c.apply x) := by
+  have rs : ∀ {c' : CS}, rest c' = rest c → SymInv c' := fun hr => h.of (rest_symTab hr) (rest_output hr)
+  cases x with
+  | rule ht head body =>
+    rw [apply_rule_eq c hf]; split
+    · exact (rs (c' := ((c.mapHead head).1.mapLits body []).1) (by simp)).of rfl rfl
+    · exact h
+  | sumRule ht head bound body =>
+    rw [apply_sum_eq c hf]; split
+    · split
+      · exact (rs (c' := ((c.mapHead head).1.mapWLits body []).1) (by simp)).of rfl rfl
+      · exact (rs (c' := ((c.mapHead head).1.mapWLits body []).1) (by simp)).of rfl rfl
+    · exact h
+  | minimize prio lits =>
+    have hany : lits.any (fun p => p.2 == I32MINc) = false := by
+      rw [List.any_eq_false]; intro p hp; simpa using (hx p hp).2
+    unfold CS.apply
+    simp only [hf, Bool.false_eq_true, ↓reduceIte, hany]
+    exact h.of rfl rfl
+  | output str cond =>
+    rw [apply_output_eq c hf]
+    exact (h.of (makeAtom_symTab c cond true) (makeAtom_frame c cond true).1).addOutput _ _ _
+  | acycEdge a b cond =>
+    rw [apply_edge_eq c hf]
+    have hp := pass_symTab c (.acycEdge a b cond)
+    exact ((h.of hp.1 hp.2).of (makeAtom_symTab _ cond true) (makeAtom_frame _ cond true).1).addOutput _ _ _
+  | heuristic a t b p cond =>
+    rw [apply_heu_eq c hf]
+    have hp := pass_symTab c (.heuristic a t b p cond)
+    exact ((h.of hp.1 hp.2).of (makeAtom_symTab _ cond true) (makeAtom_frame _ cond true).1).of rfl rfl
+  | external a v =>
+    rw [apply_external_eq c hf]; split
+    · exact (rs (c' := (c.mapAtom a).1) (rest_mapAtom c a)).of rfl rfl
+    · exact rs (rest_mapAtom c a)
+  | _ => exact absurd hx (by simp [PlainOk])
+
+theorem run_JHX {c : CS} {P defs} {Hs : List (Nat × Nat × Int × Nat × List Int)} {t : T} (hj : J c P defs) (hh : HRel c defs Hs c.heur) (hxi : XI c t) (hsy : SymInv c)
     (ds : List Call) (hx : ∀ d ∈ ds, PlainOk d) :
     ∃ defs', J (ds.foldl CS.apply c) (P ++ (rulesOf ds).filter kept) defs' ∧ HRel (ds.foldl CS.apply c) defs' (Hs ++ heusOf ds) (ds.foldl CS.apply c).heur ∧
-      XI (ds.foldl CS.apply c) (t.run ds) := by
+      XI (ds.foldl CS.apply c) (t.run ds) ∧ SymInv (ds.foldl CS.apply c) := by
   induction ds generalizing c P defs Hs t with
-  | nil => exact ⟨defs, by simpa [rulesOf] using hj, by simpa [heusOf] using hh, hxi⟩
+  | nil => exact ⟨defs, by simpa [rulesOf] using hj, by simpa [heusOf] using hh, hxi, hsy⟩
   | cons d r ih =>
     obtain ⟨defs1, h1, q1⟩ := apply_plainJH hj hh d (hx d (by simp))
     have x1 := hxi.step hj.inv hj.nofail d (hx d (by simp))
-    obtain ⟨defs2, h2, q2, x2⟩ := ih h1 q1 x1 (fun e he => hx e (by simp [he]))
-    refine ⟨defs2, ?_, ?_, x2⟩
+    have s1 := hsy.step hj.nofail d (hx d (by simp))
+    obtain ⟨defs2, h2, q2, x2, s2⟩ := ih h1 q1 x1 s1 (fun e he => hx e (by simp [he]))
+    refine ⟨defs2, ?_, ?_, x2, s2⟩
     · have : rulesOf (d :: r) = rulesOf [d] ++ rulesOf r := by rw [← rulesOf_append]; rfl
       rw [this, List.filter_append, ← List.append_assoc]
       exact h2
@@ -153,7 +226,7 @@ theorem run_JHX {c : CS} {P defs} {Hs : List (Nat × Nat × Int × Nat × List I
 
 theorem JHX.pre (ext inc : Bool) (ds : List Call) (hx : ∀ d ∈ ds, PlainOk d) :
     ∃ defs, J (preEnd ext inc ds) ((rulesOf ds).filter kept) defs ∧ HRel (preEnd ext inc ds) defs (heusOf ds) (preEnd ext inc ds).heur ∧
-      XI (preEnd ext inc ds) (({} : T).run ds) := by
+      XI (preEnd ext inc ds) (({} : T).run ds) ∧ SymInv (preEnd ext inc ds) := by
   have a1 : J (CS.apply { ext := ext } (.initProgram inc)) [] [] := by
     rw [apply_init _ rfl]; exact (J.init ext).emit _ rfl
   have a2 : J ((CS.apply { ext := ext } (.initProgram inc)).apply .beginStep) [] [] := by
@@ -162,9 +235,11 @@ theorem JHX.pre (ext inc : Bool) (ds : List Call) (hx : ∀ d ∈ ds, PlainOk d)
     rw [apply_begin _ a1.nofail, apply_init _ rfl]; exact ((XI.init ext).emit _).emit _
   have q2 : HRel ((CS.apply { ext := ext } (.initProgram inc)).apply .beginStep) [] [] ((CS.apply { ext := ext } (.initProgram inc)).apply .beginStep).heur := by
     rw [apply_begin _ a1.nofail, apply_init _ rfl]; exact trivial
-  obtain ⟨defs, h1, q1, x1⟩ := run_JHX a2 q2 d2 ds hx
+  have s2 : SymInv ((CS.apply { ext := ext } (.initProgram inc)).apply .beginStep) := by
+    rw [apply_begin _ a1.nofail, apply_init _ rfl]; intro p hp; cases hp
+  obtain ⟨defs, h1, q1, x1, y1⟩ := run_JHX a2 q2 d2 s2 ds hx
   simp only [List.nil_append] at h1 q1
-  exact ⟨defs, h1, q1, x1⟩
+  exact ⟨defs, h1, q1, x1, y1⟩
 
 /-! ### what the heuristic flush emits -/
 def heuOutName (nm : List Nat) (h : Heu) : List Nat :=
@@ -242,5 +317,161 @@ theorem flush_heu_outs (c : CS) (hf : c.fail = false) (hi : Inv (abs c)) (hfs : 
   simp only [CS.emit]
   simp only [List.mem_append, List.mem_singleton]
   exact Or.inl (Or.inl h2)
+
+/-! ### the name in the emitted heuristic symbol is a name the target's atom is shown under -/
+theorem find_ids (c : CS) (a : Nat) (ma : CAtom) (h : c.find a = some ma) : (a, ma.smId) ∈ (abs c).ids := by
+  unfold CS.find at h
+  simp only [Option.map_eq_some_iff] at h
+  obtain ⟨p, hp, e⟩ := h
+  have hm := List.mem_of_find?_eq_some hp
+  have hk := List.find?_some hp
+  simp only [beq_iff_eq] at hk
+  simp only [abs, List.mem_map]
+  exact ⟨p, hm, by rw [← e, ← hk]⟩
+
+theorem getName_mem (c : CS) (sm : Nat) (n : List Nat) (h : c.getName sm = some n) : (sm, n) ∈ c.symTab := by
+  unfold CS.getName at h
+  simp only [Option.map_eq_some_iff] at h
+  obtain ⟨p, hp, e⟩ := h
+  have hm := List.mem_of_find?_eq_some hp
+  have hk := List.find?_some hp
+  simp only [beq_iff_eq] at hk
+  have : p = (sm, n) := by cases p; simp_all
+  rw [← this]; exact hm
+
+theorem heuStep_named (c : CS) (h : Heu) (hs : SymInv c) (hm : h.atom ∈ domOf c) :
+    ∃ nm sm, (h.atom, sm) ∈ (abs c).ids ∧ Call.output (heuOutName nm h) [(h.cond : Int)] ∈ (heuStep c h).out ∧ (sm, nm) ∈ (heuStep c h).output := by
+  have hf := dom_find c h.atom hm
+  unfold heuStep
+  cases hfa : c.find h.atom with
+  | none => rw [hfa] at hf; cases hf
+  | some ma =>
+    have hid := find_ids c h.atom ma hfa
+    simp only
+    cases hn : (if ma.shown = true then c.getName ma.smId else none) with
+    | some n =>
+      have hg : c.getName ma.smId = some n := by
+        by_cases hsw : ma.shown = true
+        · simpa [hsw] using hn
+        · simp [hsw] at hn
+      exact ⟨n, ma.smId, hid, by simp [CS.emit, heuOutName], by simp only [CS.emit]; exact hs _ (getName_mem c _ _ hg)⟩
+    | none =>
+      exact ⟨Convert.s "_atom(" ++ AspifOut.printNat ma.smId ++ [41], ma.smId, hid, by simp [CS.emit, CS.addOutput, heuOutName], by simp [CS.emit, CS.addOutput]⟩
+
+theorem heuStep_sym (c : CS) (h : Heu) (hs : SymInv c) : SymInv (heuStep c h) ∧ ∀ p ∈ c.output, p ∈ (heuStep c h).output := by
+  unfold heuStep
+  cases c.find h.atom with
+  | none => exact ⟨hs, fun p hp => hp⟩
+  | some ma =>
+    simp only
+    cases (if ma.shown = true then c.getName ma.smId else none) with
+    | some n => exact ⟨hs.of rfl rfl, fun p hp => hp⟩
+    | none =>
+      refine ⟨((hs.of (c' := c.updAtom h.atom (fun x => { x with shown := true })) rfl rfl).addOutput _ _ _).of rfl rfl, ?_⟩
+      intro p hp
+      simp only [CS.emit, CS.addOutput]
+      exact List.mem_append_left _ hp
+
+theorem heuFold_named : ∀ (es : List Heu) (c : CS), SymInv c →
+    (∀ p ∈ c.output, p ∈ (es.foldl heuStep c).output) ∧
+    ∀ e ∈ es, e.atom ∈ domOf c → ∃ nm sm, (e.atom, sm) ∈ (abs c).ids ∧ Call.output (heuOutName nm e) [(e.cond : Int)] ∈ (es.foldl heuStep c).out ∧
+      (sm, nm) ∈ (es.foldl heuStep c).output := by
+  intro es
+  induction es with
+  | nil => intro c _; exact ⟨fun p hp => hp, fun e he => by cases he⟩
+  | cons h r ih =>
+    intro c hs
+    obtain ⟨s1, m1⟩ := heuStep_sym c h hs
+    obtain ⟨i1, i2⟩ := ih (heuStep c h) s1
+    have io := (heuFold_out r (heuStep c h)).1
+    simp only [List.foldl_cons]
+    refine ⟨fun p hp => i1 p (m1 p hp), ?_⟩
+    intro e he hm
+    simp only [List.mem_cons] at he
+    rcases he with he | he
+    · subst he
+      obtain ⟨nm, sm, hid, ho, hn⟩ := heuStep_named c e hs hm
+      exact ⟨nm, sm, hid, io _ ho, i1 _ hn⟩
+    · obtain ⟨nm, sm, hid, ho, hn⟩ := i2 e he (by rw [heuStep_dom]; exact hm)
+      exact ⟨nm, sm, by rw [← (heuStep_frame c h).1]; exact hid, ho, hn⟩
+
+theorem flushSymbols_emits (c : CS) : ∀ p ∈ c.output, Call.output p.2 [(p.1 : Int)] ∈ c.flushSymbols.out := by
+  intro p hp
+  have hp' : p ∈ sortSyms c.output := (mem_sortSyms p c.output).mpr hp
+  unfold CS.flushSymbols
+  generalize sortSyms c.output = l at hp'
+  induction l generalizing c with
+  | nil => cases hp'
+  | cons q r ih =>
+    simp only [List.foldl_cons]
+    simp only [List.mem_cons] at hp'
+    rcases hp' with h | h
+    · subst h
+      have hmono : ∀ (l : List (Nat × List Nat)) (c' : CS), ∀ x ∈ c'.out, x ∈ (l.foldl (fun c p => c.emit (.output p.2 [(p.1 : Int)])) c').out := by
+        intro l
+        induction l with
+        | nil => intro c' x hx; exact hx
+        | cons q' r' ih' => intro c' x hx; simp only [List.foldl_cons]; exact ih' _ x (by simp [CS.emit, hx])
+      exact hmono r _ _ (by simp [CS.emit])
+    · exact ih (c.emit (.output q.2 [(q.1 : Int)])) (by simpa [CS.emit] using hp) h
+
+theorem flushMinimize_symTab (c : CS) : c.flushMinimize.symTab = c.symTab := by
+  unfold CS.flushMinimize
+  generalize c.minimize = ms
+  induction ms generalizing c with
+  | nil => rfl
+  | cons pl r ih =>
+    simp only [List.foldl_cons]
+    rw [ih]
+    show (c.mapWLits pl.2 []).1.symTab = c.symTab
+    exact rest_symTab (by simp)
+
+theorem heuFold_abs : ∀ (es : List Heu) (c : CS), abs (es.foldl heuStep c) = abs c := by
+  intro es
+  induction es with
+  | nil => intro c; rfl
+  | cons h r ih => intro c; simp only [List.foldl_cons]; rw [ih, (heuStep_frame c h).1]
+
+theorem flushSymbols_abs (c : CS) : abs c.flushSymbols = abs c := by
+  unfold CS.flushSymbols
+  generalize sortSyms c.output = l
+  induction l generalizing c with
+  | nil => rfl
+  | cons q r ih => simp only [List.foldl_cons]; rw [ih]; rfl
+
+/-- the end of the step, with the name: the emitted heuristic symbol carries a name under which the emitted program shows the target's atom -/
+theorem flush_heu_named (c : CS) (hf : c.fail = false) (hi : Inv (abs c)) (hsy : SymInv c) (hfs : FlushShape c.flushMinimize) :
+    ∀ e ∈ c.heur, e.atom ∈ domOf c → ∃ nm sm, (e.atom, sm) ∈ (abs (c.apply .endStep)).ids ∧
+      Call.output (heuOutName nm e) [(e.cond : Int)] ∈ (c.apply .endStep).out ∧ Call.output nm [(sm : Int)] ∈ (c.apply .endStep).out := by
+  intro e he hm
+  have hsteps := apply_steps c .endStep
+  rw [apply_end c hf] at hsteps ⊢
+  obtain ⟨g1, _, _, f4⟩ := flushMinimize_frame c
+  obtain ⟨rs, esh, _, _⟩ := hfs
+  have hheur : c.flushMinimize.flushExternal.heur = c.heur := by rw [esh]; exact f4
+  have hdom : e.atom ∈ domOf c.flushMinimize.flushExternal := by
+    have h1 := dom_mono (flushMinimize_steps c) hi e.atom hm
+    rw [esh]; exact h1
+  have hsy2 : SymInv c.flushMinimize.flushExternal := by
+    rw [esh]
+    intro p hp
+    show p ∈ c.flushMinimize.output
+    rw [g1]
+    exact hsy p (flushMinimize_symTab c ▸ hp)
+  obtain ⟨nm, sm, hid, ho, hn⟩ := (heuFold_named c.flushMinimize.flushExternal.heur c.flushMinimize.flushExternal hsy2).2 e (hheur ▸ he) hdom
+  rw [← flushHeuristic_eq] at ho hn
+  refine ⟨nm, sm, ?_, ?_, ?_⟩
+  · have habs : abs (c.flush.emit .endStep) = abs c.flushMinimize.flushExternal := by
+      show abs c.flushMinimize.flushExternal.flushHeuristic.flushSymbols = _
+      rw [flushSymbols_abs, flushHeuristic_eq, heuFold_abs]
+    rw [habs]; exact hid
+  · have h2 := flushSymbols_out_mono _ _ ho
+    unfold CS.flush
+    simp only [CS.emit, List.mem_append, List.mem_singleton]
+    exact Or.inl (Or.inl h2)
+  · have h2 := flushSymbols_emits _ _ hn
+    unfold CS.flush
+    simp only [CS.emit, List.mem_append, List.mem_singleton]
+    exact Or.inl (Or.inl h2)
 
 end PotasscoVerif.C02
